@@ -14,6 +14,11 @@ def bindAllowed (parent : Option Record) (signer : Addr) : Bool :=
   | none => false
   | some p => !p.restricted || p.addr == signer
 
+/-- the IMMEDIATE parent of a name: the name without its first segment (`a.b.c` ↦ `b.c`).  A
+single-segment name gives the empty name, which never resolves.  "Bound only under an existing
+parent" is a statement about THIS name, whatever parent the bind message mentioned. -/
+def immediateParent (name : Bytes) : Bytes := joinDot (splitDot name).tail
+
 /-- "only a name's owner or governance can modify it" -/
 def modifyAllowed (authority : Addr) (existing : Option Record) (signer : Addr) : Bool :=
   match existing with
